@@ -135,6 +135,21 @@ func getb(m M, k string) bool {
 	}
 	return false
 }
+
+// payloadOf: the payload of a write / inject op: explicit bytes (`data`, crafted by the
+// generator) or n position-dependent pseudo-random bytes.
+func payloadOf(op M) []byte {
+	if d, ok := op["data"]; ok && d != nil {
+		l := vh.Ints(d)
+		b := make([]byte, len(l))
+		for i, x := range l {
+			b[i] = byte(x)
+		}
+		return b
+	}
+	return wire.Pattern(geti(op, "seed", 0), geti(op, "n", 0))
+}
+
 func errStr(e *tcpip.Error) string {
 	if e == nil {
 		return ""
@@ -908,7 +923,7 @@ func (r *runner) logLocal(h *hostRT, sid int, s *sock) {
 func (r *runner) note(op M, kv ...interface{}) {
 	ev := M{"ev": "note"}
 	for k, v := range op {
-		if k != "ev" {
+		if k != "ev" && k != "data" {
 			ev[k] = v
 		}
 	}
@@ -1003,7 +1018,7 @@ func (r *runner) do(op M) {
 		r.note(op, "ok", ok)
 	case "write":
 		s := sk()
-		data := wire.Pattern(geti(op, "seed", 0), geti(op, "n", 0))
+		data := payloadOf(op)
 		if s.proto == "ping4" || s.proto == "ping6" {
 			// echo request: type, code, checksum(0), ident(set by the stack), seq, payload
 			hd := []byte{8, 0, 0, 0, 0, 0, byte(geti(op, "seq", 1) >> 8), byte(geti(op, "seq", 1))}
@@ -1113,7 +1128,7 @@ func (r *runner) inject(h *hostRT, op M) {
 	var proto uint8
 	switch gets(op, "kind", "") {
 	case "udp":
-		l4 = wire.BuildUDP(src, dst, uint16(geti(op, "sport", 0)), uint16(geti(op, "dport", 0)), wire.Pattern(geti(op, "seed", 0), geti(op, "n", 0)), wire.UDPOpts{})
+		l4 = wire.BuildUDP(src, dst, uint16(geti(op, "sport", 0)), uint16(geti(op, "dport", 0)), payloadOf(op), wire.UDPOpts{})
 		proto = 17
 	case "tcp":
 		var opts []byte
@@ -1123,10 +1138,10 @@ func (r *runner) inject(h *hostRT, op M) {
 		seq := uint32(geti(op, "seqhi", 0))<<16 | uint32(geti(op, "seqlo", 0))
 		ack := uint32(geti(op, "ackhi", 0))<<16 | uint32(geti(op, "acklo", 0))
 		l4 = wire.BuildTCP(src, dst, wire.TCPFields{SrcPort: uint16(geti(op, "sport", 0)), DstPort: uint16(geti(op, "dport", 0)), Seq: seq, Ack: ack,
-			Flags: flagsOf(gets(op, "flags", "")), Window: uint16(geti(op, "win", 65535)), Opts: wire.PadOpts(opts)}, wire.Pattern(geti(op, "seed", 0), geti(op, "n", 0)))
+			Flags: flagsOf(gets(op, "flags", "")), Window: uint16(geti(op, "win", 65535)), Opts: wire.PadOpts(opts)}, payloadOf(op))
 		proto = 6
 	case "echo":
-		data := wire.Pattern(geti(op, "seed", 0), geti(op, "n", 0))
+		data := payloadOf(op)
 		if v == 4 {
 			l4 = wire.BuildICMPv4Echo(8, uint16(geti(op, "ident", 1)), uint16(geti(op, "seq", 1)), data)
 			proto = 1
